@@ -14,6 +14,39 @@ pub fn repo() -> String {
     std::env::var("HMC_REPO").unwrap_or_else(|_| "/repo".to_string())
 }
 
+/// Scan of the library sources for shared mutable state (statics, atomics, locks, cells, thread locals, unsafe). The
+/// exploration engines assume a stateless API ("plain values without hidden state", DESIGN.md §1); this does not decide
+/// anything - a cache can be correct - but it is recorded in the evidence, and when such state exists the
+/// order-independence exploration goes one level deeper (ordered triples). Returns (number of matching lines, files).
+pub fn shared_state_scan() -> (u64, Vec<String>) {
+    static SCAN: std::sync::OnceLock<(u64, Vec<String>)> = std::sync::OnceLock::new();
+    SCAN.get_or_init(|| {
+        let pats = ["static mut", "thread_local!", "Atomic", "Mutex<", "RwLock<", "OnceCell", "OnceLock", "lazy_static", "RefCell<", "Cell<", "unsafe "];
+        let mut n = 0u64;
+        let mut files = vec![];
+        let mut stack = vec![std::path::PathBuf::from(format!("{}/src", repo()))];
+        while let Some(dir) = stack.pop() {
+            let Ok(rd) = std::fs::read_dir(&dir) else { continue };
+            for e in rd.flatten() {
+                let p = e.path();
+                if p.is_dir() {
+                    stack.push(p);
+                } else if p.extension().map(|x| x == "rs").unwrap_or(false) && !p.to_string_lossy().contains("python") && !p.to_string_lossy().contains("kani") {
+                    let Ok(text) = std::fs::read_to_string(&p) else { continue };
+                    let hits = text.lines().filter(|l| !l.trim_start().starts_with("//") && (pats.iter().any(|q| l.contains(q)) || (l.trim_start().starts_with("static ") && !l.contains("&str") && !l.contains("&'static")))).count() as u64;
+                    if hits > 0 {
+                        n += hits;
+                        files.push(p.to_string_lossy().to_string());
+                    }
+                }
+            }
+        }
+        files.sort();
+        (n, files)
+    })
+    .clone()
+}
+
 #[derive(Clone, Debug)]
 pub struct Violation {
     pub check: String,
